@@ -25,6 +25,11 @@ NATIVE = {
     + [
         (f"C03:numpy-{K}-count-first", f"histogrammar.primitives.collection.{K}._numpy", "bounded:numpy-equals-rowwise:count-before-first-quantity", "the same batches on a collection whose first child is a Count followed by a quantity-bearing child")
         for K in ("UntypedLabel", "Branch")
+    ]
+    + [
+        (f"C03:edges-{K}", f"histogrammar.primitives.{_NP_MOD[K]}.{K}._numpy", "bounded:numpy-equals-rowwise:quantities-on-bin-edges",
+         "400 random non-dyadic binnings (num in {1..100}, low in {0, -1.5, 0.1, 1e-3, -7, 1000}, 5 widths; up to 7 random centres / edges); batch = every edge (both association orders), each +-1 ulp, nan, low, high, high - 1 ulp, shuffled, weights in {1, 0.5, 2, 3.25}; Count bins (fast path) and Sum bins (bin-by-bin path); the rounding level that the real-arithmetic routing proofs abstract")
+        for K in ("Bin", "SparselyBin", "CentrallyBin", "IrregularlyBin", "Stack")
     ],
     "C11": [
         ("C11:pickle", "histogrammar.defs.Container.__getstate__", "bounded:pickle-roundtrip",
@@ -53,6 +58,15 @@ NATIVE = {
     "C08": [
         ("C08:Bag.vector", "histogrammar.primitives.bag.Bag.__mul__", "bounded:vector-bags-scale-like-refill",
          "Bag of range N2 / N3: h * 2 equals filling with doubled weights; h * 0 is empty"),
+    ],
+    "C05": [
+        (f"C05:edges-{K}", f"histogrammar.primitives.{_NP_MOD[K]}.{K}.fill", "bounded:bins-and-flows-sum-to-entries:quantities-on-bin-edges",
+         "the binnings and edge batches of C03:edges-<K>, filled row-wise and by fill.numpy: bins + underflow / overflow / nanflow (Stack: level 0 + nanflow) sum to entries up to 1e-9 relative - every quantity on or next to an edge is counted exactly once, at the rounding level the partition lemmas abstract")
+        for K in ("Bin", "SparselyBin", "CentrallyBin", "IrregularlyBin", "Stack")
+    ],
+    "C10": [
+        ("C10:Stack.nan-thresholds", "histogrammar.primitives.stack.Stack._sameThresholds", "bounded:nan-thresholds-match-only-nan",
+         "Stack.build(...) against an ordinary Stack with as many levels, and ed-built Stacks with thresholds (nan, 1) vs (nan, 2) / (1, nan) / (-inf, 1), (nan, nan) vs (nan, nan, nan): + and += in both operand orders raise ContainerException; equal NaN patterns merge (NaN thresholds are outside the wf of the proved Stack contracts)"),
     ],
     "C12": [
         ("C12:rollback", "histogrammar.defs.Container.fill", "bounded:failing-fill-leaves-the-tree-bit-identical",
